@@ -81,8 +81,8 @@ Proof.
   split.
   - apply Zfloor_le. lra.
   - destruct (Req_dec (IZR (Zfloor c)) c) as [E|N].
-    + rewrite <- E at 1. rewrite <- E at 2. rewrite Zceil_IZR.
-      assert (Zfloor (IZR (Zfloor c) + /2) = Zfloor c) as ->; [|lia].
+    + remember (Zfloor c) as f eqn:Ef. rewrite <- E. rewrite Zceil_IZR.
+      assert (Zfloor (IZR f + /2) = f) as ->; [|lia].
       apply Zfloor_imp. rewrite plus_IZR. simpl. lra.
     + rewrite (Zceil_floor_neq c N).
       assert (Zfloor (c + /2) < Zfloor c + 2)%Z; [|lia].
@@ -95,12 +95,27 @@ Proof. split; [apply Znearest_ge_floor | apply Znearest_le_ceil]. Qed.
 Lemma affine_between (k q x0 x x1 : R) : x0 <= x <= x1 ->
   Rmin (k * x0 + q) (k * x1 + q) <= k * x + q <= Rmax (k * x0 + q) (k * x1 + q).
 Proof.
-  intros [H0 H1]. unfold Rmin, Rmax. destruct (Rle_dec (k * x0 + q) (k * x1 + q)); split; nra.
+  intros [H0 H1].
+  assert (A : 0 <= k * (x - x0) \/ k * (x - x0) <= 0) by (destruct (Rle_dec 0 (k * (x - x0))); [left|right]; lra).
+  destruct (Rle_dec 0 k) as [Hk|Hk].
+  - assert (0 <= k * (x - x0)) by (apply Rmult_le_pos; lra).
+    assert (0 <= k * (x1 - x)) by (apply Rmult_le_pos; lra).
+    unfold Rmin, Rmax. destruct (Rle_dec (k * x0 + q) (k * x1 + q)); split; lra.
+  - assert (0 <= (- k) * (x - x0)) by (apply Rmult_le_pos; lra).
+    assert (0 <= (- k) * (x1 - x)) by (apply Rmult_le_pos; lra).
+    unfold Rmin, Rmax. destruct (Rle_dec (k * x0 + q) (k * x1 + q)); split; lra.
 Qed.
 Lemma affine_between_strict (k q x0 x x1 : R) : k <> 0 -> x0 < x < x1 ->
   Rmin (k * x0 + q) (k * x1 + q) < k * x + q < Rmax (k * x0 + q) (k * x1 + q).
 Proof.
-  intros Hk [H0 H1]. unfold Rmin, Rmax. destruct (Rle_dec (k * x0 + q) (k * x1 + q)); split; nra.
+  intros Hk [H0 H1].
+  destruct (Rlt_dec 0 k) as [Hp|Hn].
+  - assert (0 < k * (x - x0)) by (apply Rmult_lt_0_compat; lra).
+    assert (0 < k * (x1 - x)) by (apply Rmult_lt_0_compat; lra).
+    unfold Rmin, Rmax. destruct (Rle_dec (k * x0 + q) (k * x1 + q)); split; lra.
+  - assert (0 < (- k) * (x - x0)) by (apply Rmult_lt_0_compat; lra).
+    assert (0 < (- k) * (x1 - x)) by (apply Rmult_lt_0_compat; lra).
+    unfold Rmin, Rmax. destruct (Rle_dec (k * x0 + q) (k * x1 + q)); split; lra.
 Qed.
 
 Lemma arr_x_affine a x : wf_area a -> arr_of_proj_x RO a x = / dxR a * x + (- xmin a / dxR a - /2).
@@ -209,7 +224,7 @@ Proof.
   destruct (all_outside RO a _ _); [discriminate|]. inversion E; subst; clear E.
   pose proof (arr_x_between a minx px maxx Hwf Hx) as Bx.
   pose proof (arr_y_between a miny py maxy Hwf Hy) as By.
-  repeat split.
+  split; [|split; [|split]].
   - intros k Hk. apply slice1d with (c := arr_of_proj_x RO a px); auto.
   - intros k Hk. apply slice1d with (c := arr_of_proj_y RO a py); auto.
   - intros Hs. apply slice1d_next; [|exact Hc]. split; [apply Bx|]. apply arr_x_between_strict; auto.
@@ -248,6 +263,11 @@ Lemma unit4_arr_x x : arr_of_proj_x RO unit4 x = x - /2.
 Proof. rewrite arr_of_proj_x_canonical by exact unit4_wf. unfold dxR, unit4; cbn. field. Qed.
 Lemma unit4_arr_y y : arr_of_proj_y RO unit4 y = 4 - y - /2.
 Proof. rewrite arr_of_proj_y_canonical by exact unit4_wf. unfold dyR, unit4; cbn. field. Qed.
+Lemma unit4_outer_half : crop_slices RO true true unit4 (/8, 1, /4, 2) = NoOverlap 3.
+Proof.
+  apply nonoverlap_iff. right; right. split; [reflexivity|]. split; [reflexivity|]. split; [reflexivity|].
+  left. rewrite bounds_to_arr_R. unfold outside_axis, fst, snd. left. rewrite !unit4_arr_x. split; lra.
+Qed.
 Lemma outer_half_pixel_refuted :
   exists a minx miny maxx maxy px py, wf_area a /\ minx <= px <= maxx /\ miny <= py <= maxy /\
     - /2 <= arr_of_proj_x RO a px < IZR (width a) - /2 /\ - /2 <= arr_of_proj_y RO a py < IZR (height a) - /2 /\
@@ -255,10 +275,9 @@ Lemma outer_half_pixel_refuted :
 Proof.
   exists unit4, (/8), 1, (/4), 2, (/8), 2.
   split; [exact unit4_wf|].
-  rewrite unit4_arr_x, unit4_arr_y. cbn.
-  repeat split; try lra.
-  apply nonoverlap_iff. right; right. repeat split.
-  left. rewrite bounds_to_arr_R; cbn. left. rewrite !unit4_arr_x. split; lra.
+  rewrite unit4_arr_x, unit4_arr_y.
+  replace (IZR (width unit4)) with 4 by reflexivity. replace (IZR (height unit4)) with 4 by reflexivity.
+  split; [lra|]. split; [lra|]. split; [lra|]. split; [lra|]. exact unit4_outer_half.
 Qed.
 (* ... and a hit for the sound theorem's hypotheses (non-vacuity) *)
 Lemma sound_example :
